@@ -82,7 +82,7 @@ def r1_direction_wrapper(ctx):
         if arg is None:
             return None
         t = norm(arg)
-        star = [norm(kw.value) for kw in c.keywords if kw.arg is None]
+        star = [R.text(kw.value) for kw in c.keywords if kw.arg is None]
         okp = star == [f"{pv}.valuesdict()"]
         if t == xv:
             return state["xrev"], okp
@@ -125,13 +125,13 @@ def r1_direction_wrapper(ctx):
                           ci[1], state["stale"], node))
             return
         t = norm(v)
-        for rn, rrev in state["results"].items():
+        for rn, (rrev, orev) in state["results"].items():
             if t == rn:
-                paths.append((state["asc"], state["calls"], rrev, False,
+                paths.append((state["asc"], state["calls"], rrev, orev,
                               state["okp"], state["stale"], node))
                 return
             if t == f"{rn}[::-1]":
-                paths.append((state["asc"], state["calls"], rrev, True,
+                paths.append((state["asc"], state["calls"], rrev, not orev,
                               state["okp"], state["stale"], node))
                 return
         raise Undecided(f"unrecognised return value {t[:50]}")
@@ -166,10 +166,21 @@ def r1_direction_wrapper(ctx):
                         raise Undecided("unrecognised call of the model "
                                         "function")
                     state["calls"] += 1
-                    state["results"][tgt] = ci[0]
+                    state["results"][tgt] = (ci[0], False)
                     state["okp"] = ci[1]
                     continue
                 t = norm(v)
+                # r2 = r[::-1] / r = r[::-1] / r2 = r
+                hit = False
+                for rn, (rrev, orev) in list(state["results"].items()):
+                    if t == f"{rn}[::-1]":
+                        state["results"][tgt] = (rrev, not orev)
+                        hit = True
+                    elif t == rn:
+                        state["results"][tgt] = (rrev, orev)
+                        hit = True
+                if hit:
+                    continue
                 if tgt == xv and t in rev_forms:
                     state["xrev"] = not state["xrev"]
                     continue
